@@ -46,4 +46,34 @@ by one": checks the specification's weekday function itself -/
 def weekday_spec_sanity_statement : Prop :=
   weekdayOfDay (dayNum 1970 1 1) = 3 ∧ ∀ n : Int, weekdayOfDay (n + 1) = (weekdayOfDay n + 1) % 7
 
+/-! ### proofs (helper lemmas in `Cctz/Proofs/Weekday.lean`, `WdInt`, `WdCalendar`, `WdNDay`) -/
+
+theorem getWeekday_spec : getWeekday_statement :=
+  fun f hv => Wd.getWeekday_correct f hv
+
+theorem getYearday_spec : getYearday_statement :=
+  fun f hv => Wd.getYearday_correct f hv
+
+theorem nextWeekday_spec : nextWeekday_statement := by
+  intro cd w hv _ hw0 hw6
+  obtain ⟨⟨h1, h2, h3⟩, h4, h5, h6⟩ := Wd.nextWeekday_holds cd w hv hw0 hw6
+  exact ⟨h1, h2, h3, h4, h5, h6⟩
+
+theorem prevWeekday_spec : prevWeekday_statement := by
+  intro cd w hv _ hw0 hw6
+  obtain ⟨⟨h1, h2, h3⟩, h4, h5, h6⟩ := Wd.prevWeekday_holds cd w hv hw0 hw6
+  exact ⟨h1, h2, h3, h4, h5, h6⟩
+
+theorem weekday_spec_sanity : weekday_spec_sanity_statement := Wd.weekday_sanity
+
+/-! the hypotheses are satisfiable on non-trivial values, and the conclusions say what is meant:
+2024-02-29 (leap day, a Thursday, day 60 of the year); next Thursday is 2024-03-07, previous
+Monday is 2024-02-26; stepping back from 2024-03-02 to the previous Friday crosses the leap day -/
+example : Valid ⟨2024, 2, 29, 0, 0, 0⟩ ∧ Aligned .day ⟨2024, 2, 29, 0, 0, 0⟩ := by decide
+example : (Civil.getWeekday ⟨2024, 2, 29, 0, 0, 0⟩).val = 3 := by decide
+example : (Civil.getYearday ⟨2024, 2, 29, 0, 0, 0⟩).val = 60 := by decide
+example : weekdayOfDay (dayNum 2024 2 29) = 3 := by decide
+example : Valid ⟨-401, 3, 1, 0, 0, 0⟩ ∧ (Civil.getWeekday ⟨-401, 3, 1, 0, 0, 0⟩).val
+    = weekdayOfDay (dayNum (-401) 3 1) := by decide
+
 end Cctz.C17
